@@ -7,7 +7,15 @@
 package dragonboat
 
 import (
+	"fmt"
+
+	"github.com/lni/dragonboat/v4/config"
+	"github.com/lni/dragonboat/v4/internal/logdb"
+	"github.com/lni/dragonboat/v4/internal/raft"
+	"github.com/lni/dragonboat/v4/internal/server"
 	"github.com/lni/dragonboat/v4/internal/transport"
+	"github.com/lni/dragonboat/v4/internal/vfs"
+	"github.com/lni/dragonboat/v4/raftio"
 	pb "github.com/lni/dragonboat/v4/raftpb"
 )
 
@@ -56,4 +64,33 @@ func VerifC04SendFilters(ud pb.Update) (pre []pb.Message, post []pb.Message) {
 // VerifC04IsFreeOrder is node.go's isFreeOrderMessage.
 func VerifC04IsFreeOrder(t pb.MessageType) bool {
 	return isFreeOrderMessage(pb.Message{Type: t})
+}
+
+// VerifC04Restart is the restart path of a replica over an existing log store:
+// the real snapshotter and LogReader as NodeHost.startShard builds them, then
+// the real node.startRaft (node.replayLog + raft.Launch). It returns what the
+// launched raft peer holds.
+func VerifC04Restart(cfg config.Config, ldb raftio.ILogDB, fs vfs.IFS,
+	peers map[uint64]string, initial bool) (st raft.VerifC04Started, ss pb.Snapshot, newNode bool, err error) {
+	lr := logdb.NewLogReader(cfg.ShardID, cfg.ReplicaID, ldb)
+	root := func(shardID uint64, replicaID uint64) string {
+		return fs.PathJoin("/probe-snapshots", fmt.Sprintf("snapshot-%d-%d", shardID, replicaID))
+	}
+	s := newSnapshotter(cfg.ShardID, cfg.ReplicaID, server.SnapshotDirFunc(root), ldb, lr, fs)
+	lr.SetCompactor(s)
+	n := &node{
+		shardID:     cfg.ShardID,
+		replicaID:   cfg.ReplicaID,
+		config:      cfg,
+		logdb:       ldb,
+		logReader:   lr,
+		snapshotter: s,
+		sysEvents:   &sysEventListener{},
+		raftEvents:  newRaftEventListener(cfg.ShardID, cfg.ReplicaID, false, newLeaderInfoQueue()),
+	}
+	newNode, err = n.startRaft(cfg, peers, initial)
+	if err != nil {
+		return st, ss, newNode, err
+	}
+	return raft.VerifC04PeerState(&n.p), lr.Snapshot(), newNode, nil
 }
